@@ -16,10 +16,10 @@ CFG = dict(
          "Non-trivial = at least one record was emitted; distinct by input line.",
     nontrivial=["records"],
     jobs=seeds(1, 4),
-    lean_files=["Trig", "Pipe", "PipeJudge", "C02", "C09", "Pipe1", "Pipe2", "Edge", "Level", "Auto", "Passes", "TrigIdx", "EdgeGlobal", "LevelGlobal"],
+    lean_files=["Trig", "Pipe", "PipeJudge", "C02", "C09", "Pipe1", "Pipe2", "Edge", "Level", "Auto", "Passes", "TrigIdx", "EdgeGlobal", "LevelGlobal", "AutoDense", "AutoGlobal"],
     trusted_base=_PIPE_TB,
     assumptions=["auto delay enters the model as an integer number of samples computed with the code's own expression",
-                 "the auto gap is proved per block (triggers in range) and judged across blocks only by the run-time oracle (full statement kept as a Prop)"],
+                 "the auto-gap theorem is for no veto (as the property says); with a veto only no-crash/in-range is proved and the oracle judges nothing about gaps"],
     timeout=dict(quick=900, thorough=3600),
 )
 MANIFEST = dict(
@@ -28,10 +28,13 @@ MANIFEST = dict(
          "complete post-trigger is a trigger or lies in the dead time (T,T+nsamp] of an emitted trigger - from the first block after a start with restored settings "
          "and after a ConfigureTriggers request at any point (C02_edge_complete, C02_edge_complete_after_reconfigure; invariant EdgeInv: scan frontier, retained "
          "history >= one record, hold-off hand-over); edge-only triggers are sound and never overlap (C02_edge_only_sound, C02_edge_only_no_overlap); per block: "
-         "edge/level soundness, completeness and separation, auto triggers in range. ",
+         "edge/level soundness, completeness and separation, auto triggers in range. Level clause across blocks: C02_level_complete (invariant LevelInv). Auto clause across "
+         "blocks: with auto trigger and no veto the trigger frames of a run are ascending and neighbours are at most max(delay,nsamp)+nsamp apart, from a start and after a "
+         "reconfiguration at any point (C02_auto_gap, C02_auto_gap_after_reconfigure; window form C02_auto_dense; invariant AutoInv: hold-off reference = newest trigger, "
+         "next scan start inside the retained buffer, previous scan ended no earlier than one delay after it). ",
     note="Trusted: Lean 4.33 kernel (axioms propext, Classical.choice, Quot.sound only; audited every run); the hand-written model is tied to the Go code only by "
-         "differential testing with seeded generators (not a proof). Partial: cross-block theorems cover the edge clauses; level/auto clauses are proved per block "
-         "and otherwise checked by the oracle on explored cases. Epochs started by ConfigurePulseLengths are covered by the oracle only. Two defects found by this "
+         "differential testing with seeded generators (not a proof). The edge, level and auto clauses are all proved across blocks for epochs started by a start or by ConfigureTriggers; "
+         "soundness of level/auto triggers in mixed settings is per block and by the oracle. Epochs started by ConfigurePulseLengths are covered by the oracle only. Two defects found by this "
          "check were repaired in /repo (77b7098 retained history after a start with restored settings; 51926cc pseudo trigger at frame 0).",
     technique="Lean 4 theorems (scan-loop specifications + cross-block invariant) over an executable model; independent-scan oracle and model tied to the Go code by a differential correspondence run",
 )
@@ -39,6 +42,9 @@ THEOREMS = [
     ("DastardV.Props.C02", "DastardV.C02.C02_edge_complete"),
     ("DastardV.Props.C02", "DastardV.C02.C02_edge_complete_after_reconfigure"),
     ("DastardV.Props.C02", "DastardV.C02.C02_level_complete"),
+    ("DastardV.Props.C02", "DastardV.C02.C02_auto_gap"),
+    ("DastardV.Props.C02", "DastardV.C02.C02_auto_dense"),
+    ("DastardV.Props.C02", "DastardV.C02.C02_auto_gap_after_reconfigure"),
     ("DastardV.Props.C02", "DastardV.C02.C02_edge_only_sound"),
     ("DastardV.Props.C02", "DastardV.C02.C02_edge_only_no_overlap"),
     ("DastardV.Props.C02", "DastardV.C02.C02_block_edge"),
